@@ -805,3 +805,167 @@ func init() {
 	m := mutant{"path-search-runs-all-its-rounds", "pkg/engine/pathfinding.go", "\t\tif len(fwdQueue) == 0 && len(bwdQueue) == 0 {\n\t\t\tbreak\n\t\t}\n", "", "GRD-path-exhausted", "ends-with-empty-frontiers"}
 	addMutants("C11", m)
 }
+
+// Round 6: one re-opening of each hazard the round-6 rules guard, written differently from the seed that prompted the rule.
+func init() {
+	m := mutant{"oversized-record-journaled", "pkg/persistence/lazy_aof.go", "\tif len(data) > MaxPayloadSize {\n\t\treturn fmt.Errorf(\"record of %d bytes exceeds the maximum frame payload of %d bytes\", len(data), MaxPayloadSize)\n\t}\n", "", "CDC-16", "refuses-records-above-the-reader-limit"}
+	addMutants("C01", m)
+	addMutants("C03", m)
+	addMutants("C03",
+		mutant{"arguments-peeked-out-of-the-read-buffer", "pkg/persistence/resp.go", "\t\targData := make([]byte, lenArg)\n\t\t_, err = io.ReadFull(reader, argData)\n", "\t\targData, err := reader.Peek(lenArg)\n\t\tif err == nil {\n\t\t\t_, err = reader.Discard(lenArg)\n\t\t}\n", "GRD-own-parse", "arguments-not-windows-into-the-reader"},
+		mutant{"buffered-frame-reader-never-reset", "pkg/engine/recovery.go", "\t\tpayload, frameSize, err := persistence.ReadFrame(file)\n", "\t\tpayload, frameSize, err := persistence.ReadFrame(frames)\n", "ORD-15", "seek-then-reset"},
+	)
+	moreEdits["buffered-frame-reader-never-reset"] = []edit{{"pkg/engine/recovery.go", "\tvar validOffset int64 = 0\n\tcorrupted := false\n", "\tvar validOffset int64 = 0\n\tcorrupted := false\n\tframes := bufio.NewReaderSize(file, 1<<16)\n"}}
+	m = mutant{"result-channel-sized-by-the-cpu-count", "pkg/core/core.go", "\tresultsChan := make(chan VectorData, len(vectorIDs))\n", "\tresultsChan := make(chan VectorData, runtime.NumCPU())\n", "GRD-chancap", "capacity-is-the-job-count"}
+	addMutants("C04", m)
+	addMutants("C13", m)
+	addMutants("C04",
+		mutant{"kv-found-decided-by-the-value-length", "pkg/core/kv.go", "\tvalue, found := s.data[key]\n\tif !found {\n", "\tvalue := s.data[key]\n\tif len(value) == 0 {\n", "GRD-commaok", "found-is-the-comma-ok"},
+		mutant{"kv-found-also-needs-a-value", "pkg/core/kv.go", "\tif !found {\n\t\treturn nil, false\n\t}\n\treturn append([]byte(nil), value...), true\n", "\tif !found || value == nil {\n\t\treturn nil, false\n\t}\n\treturn append([]byte(nil), value...), true\n", "GRD-commaok", "found-is-the-comma-ok"},
+	)
+	addMutants("C12",
+		mutant{"events-sent-from-goroutines-of-their-own", "pkg/engine/events.go", "\t\tselect {\n\t\tcase ch <- e:\n\t\tdefault:\n\t\t\t// Buffer full, drop the event for this slow consumer.\n\t\t}\n", "\t\tgo func(ch chan Event) {\n\t\t\tselect {\n\t\t\tcase ch <- e:\n\t\t\tdefault:\n\t\t\t}\n\t\t}(ch)\n", "LCK-7e", "sends-under-the-subscriber-lock"},
+	)
+	m = mutant{"hybrid-filter-upper-cased", "pkg/engine/search_utils.go", "\t// Cleanup AND/OR leftovers\n\tbooleanFilter = strings.TrimSpace(booleanFilter)\n", "\t// Cleanup AND/OR leftovers\n\tbooleanFilter = strings.ToUpper(strings.TrimSpace(booleanFilter))\n", "GRD-verbatim-hybrid", "boolean-filter-as-written"}
+	addMutants("C06", m)
+	addMutants("C08", m)
+	m = mutant{"empty-string-drops-the-key-without-unindexing", "pkg/core/core.go", "§2/2§\tfor key, value := range metadata {\n\t\t// Update direct lookup map (O(1))\n", "\tfor key, value := range metadata {\n\t\tif str, isStr := value.(string); isStr && str == \"\" {\n\t\t\tdelete(s.metadataMap[indexName][nodeID], key)\n\t\t\tcontinue\n\t\t}\n\t\t// Update direct lookup map (O(1))\n", "GRD-reindex", "metadata-delete-goes-through-removeOldIndexEntries"}
+	addMutants("C08", m)
+	addMutants("C09", m)
+	m = mutant{"relink-refreshes-the-reverse-entry", "pkg/core/graph.go", "\t\tif inList[i].SourceID == sourceID && inList[i].DeletedAt == 0 {\n\t\t\tfoundIn = true\n", "\t\tif inList[i].SourceID == sourceID && inList[i].DeletedAt == 0 {\n\t\t\tinList[i].CreatedAt = timestamp\n\t\t\tfoundIn = true\n", "GRD-rev-append", "reverse-entries-appended-never-rewritten"}
+	addMutants("C10", m)
+	addMutants("C11", m)
+	addMutants("C15",
+		mutant{"layer-names-trimmed-on-store", "pkg/core/hnsw/hnsw_index.go", "\tdefer h.metaMu.Unlock()\n\th.memoryConfig = cfg\n", "\tdefer h.metaMu.Unlock()\n\tif len(cfg.Layers) > 0 {\n\t\ttrimmed := make(map[string]LayerConfig, len(cfg.Layers))\n\t\tfor name, lc := range cfg.Layers {\n\t\t\ttrimmed[strings.TrimSpace(name)] = lc\n\t\t}\n\t\tcfg.Layers = trimmed\n\t}\n\th.memoryConfig = cfg\n", "GRD-layers-verbatim", "layer-names-as-configured"},
+		mutant{"pinned-memory-keeps-its-reference-time", "pkg/engine/ops.go", "\t\tmeta[\"_last_accessed\"] = now\n", "\t\tif pinned, _ := meta[\"_pinned\"].(bool); !pinned {\n\t\t\tmeta[\"_last_accessed\"] = now\n\t\t}\n", "GRD-reinforce-all", "not-decided-by-the-pin"},
+	)
+	moreEdits["layer-names-trimmed-on-store"] = []edit{{"pkg/core/hnsw/hnsw_index.go", "\t\"slices\"\n", "\t\"slices\"\n\t\"strings\"\n"}}
+	addMutants("C18",
+		mutant{"close-removes-the-dropped-chunk-files-by-name", "pkg/storage/mmap/arena.go", "\t\t// File already closed in DeferDropChunk, just unmap\n\t\tchunk.Data = nil\n", "\t\t_ = os.Remove(chunk.File.Name())\n\t\tchunk.Data = nil\n", "GRD-close-keeps-files", "removes-no-file"},
+	)
+	addMutants("C09",
+		mutant{"alpha-defaulted-by-a-handler-helper", "internal/server/http_handlers.go", "§2/2§\t\t\treq.Alpha,\n", "\t\t\talphaOrDefault(req.Alpha),\n", "WEB-verbatim-alpha", "alpha-from-the-request"},
+	)
+	moreEdits["alpha-defaulted-by-a-handler-helper"] = []edit{{"internal/server/http_handlers.go", "\nfunc (s *Server) handleVectorSearch(", "\nfunc alphaOrDefault(a float64) float64 {\n\tif a == 0 {\n\t\treturn 0.5\n\t}\n\treturn a\n}\n\nfunc (s *Server) handleVectorSearch("}}
+	addMutants("C17",
+		mutant{"invalidation-reads-one-page-of-ids", "pkg/proxy/proxy.go", "\t\tif hnswIdx, ok := idx.(*hnsw.Index); ok {\n\t\t\thnswIdx.IterateRaw(func(id string, _ interface{}) { ids = append(ids, id) })\n\t\t}\n", "\t\tif _, ok := idx.(*hnsw.Index); ok {\n\t\t\tids, _, _ = p.engine.VGetIDsByCursor(p.cfg.CacheIndex, 0, 10000)\n\t\t}\n", "GRD-inval-all", "enumerates-the-whole-cache"},
+	)
+	addMutants("C07",
+		mutant{"delete-releases-the-slot-through-a-helper", "pkg/core/hnsw/hnsw_index.go", "\t\tif node != nil {\n\t\t\tnode.Deleted.Store(true)\n\t\t}\n\t}\n\t// ------------------------------------\n", "\t\tif node != nil {\n\t\t\tnode.Deleted.Store(true)\n\t\t\th.releaseStorage(internalID)\n\t\t}\n\t}\n\t// ------------------------------------\n", "GRD-tombstone-storage", "frees-no-arena-slot"},
+		mutant{"all-zero-query-answered-without-a-search", "pkg/engine/ops.go", "\t// CASE B: HYBRID / VECTOR\n", "\tif isVectorQueryEmpty && len(query) > 0 && textQuery == \"\" {\n\t\treturn []fusedResult{}, nil\n\t}\n\n\t// CASE B: HYBRID / VECTOR\n", "GRD-no-query-shortcut", "no-return-decided-by-the-query-values"},
+	)
+	moreEdits["delete-releases-the-slot-through-a-helper"] = []edit{{"pkg/core/hnsw/hnsw_index.go", "\nfunc (h *Index) Delete(id string) {", "\nfunc (h *Index) releaseStorage(internalID uint32) {\n\tif h.arena != nil {\n\t\th.arena.FreeSlot(internalID)\n\t}\n}\n\nfunc (h *Index) Delete(id string) {"}}
+}
+
+// Round 6: behaviour-preserving rewrites of the code the round-6 rules read; every one must stay unreported.
+func init() {
+	addMutants("C03",
+		mutant{"benign:record-limit-tested-on-a-local", "pkg/persistence/lazy_aof.go", "\tif len(data) > MaxPayloadSize {\n\t\treturn fmt.Errorf(\"record of %d bytes exceeds the maximum frame payload of %d bytes\", len(data), MaxPayloadSize)\n\t}\n", "\tif n := len(data); n > MaxPayloadSize {\n\t\treturn fmt.Errorf(\"record of %d bytes exceeds the maximum frame payload of %d bytes\", n, MaxPayloadSize)\n\t}\n", "silent", ""},
+		mutant{"benign:argument-copied-out-of-the-read-buffer", "pkg/persistence/resp.go", "\t\targData := make([]byte, lenArg)\n\t\t_, err = io.ReadFull(reader, argData)\n", "\t\tvar argData []byte\n\t\tif lenArg <= reader.Buffered() {\n\t\t\tvar window []byte\n\t\t\twindow, err = reader.Peek(lenArg)\n\t\t\targData = append([]byte(nil), window...)\n\t\t\tif err == nil {\n\t\t\t\t_, err = reader.Discard(lenArg)\n\t\t\t}\n\t\t} else {\n\t\t\targData = make([]byte, lenArg)\n\t\t\t_, err = io.ReadFull(reader, argData)\n\t\t}\n", "silent", ""},
+		mutant{"benign:argument-and-terminator-read-in-one-go", "pkg/persistence/resp.go", "\t\targData := make([]byte, lenArg)\n\t\t_, err = io.ReadFull(reader, argData)\n", "\t\targData := make([]byte, lenArg, lenArg+2)\n\t\t_, err = io.ReadFull(reader, argData)\n", "silent", ""},
+		mutant{"benign:buffered-frame-reader-reset-after-every-seek", "pkg/engine/recovery.go", "\t\tpayload, frameSize, err := persistence.ReadFrame(file)\n", "\t\tpayload, frameSize, err := persistence.ReadFrame(frames)\n", "silent", ""},
+	)
+	moreEdits["benign:buffered-frame-reader-reset-after-every-seek"] = []edit{
+		{"pkg/engine/recovery.go", "\tvar validOffset int64 = 0\n\tcorrupted := false\n", "\tvar validOffset int64 = 0\n\tcorrupted := false\n\tframes := bufio.NewReaderSize(file, 1<<16)\n"},
+		{"pkg/engine/recovery.go", "§1/2§\t\t\t\tfile.Seek(resyncOffset, io.SeekStart)\n", "\t\t\t\tfile.Seek(resyncOffset, io.SeekStart)\n\t\t\t\tframes.Reset(file)\n"},
+		{"pkg/engine/recovery.go", "\t\t\t\tfile.Seek(resyncOffset, io.SeekStart)\n\t\t\t\tcontinue", "\t\t\t\tfile.Seek(resyncOffset, io.SeekStart)\n\t\t\t\tframes.Reset(file)\n\t\t\t\tcontinue"},
+	}
+	addMutants("C04",
+		mutant{"benign:channel-capacity-through-a-local", "pkg/core/core.go", "\tjobs := make(chan string, len(vectorIDs))\n\t// Channel to collect results\n\tresultsChan := make(chan VectorData, len(vectorIDs))\n", "\twanted := len(vectorIDs)\n\tjobs := make(chan string, wanted)\n\t// Channel to collect results\n\tresultsChan := make(chan VectorData, wanted)\n", "silent", ""},
+		mutant{"benign:kv-get-found-arm-first", "pkg/core/kv.go", "\tvalue, found := s.data[key]\n\tif !found {\n\t\treturn nil, false\n\t}\n\treturn append([]byte(nil), value...), true\n", "\tif value, found := s.data[key]; found {\n\t\treturn append([]byte(nil), value...), true\n\t}\n\treturn nil, false\n", "silent", ""},
+	)
+	addMutants("C12",
+		mutant{"benign:emit-unlocks-explicitly-after-the-fan-out", "pkg/engine/events.go", "\teb.mu.RLock()\n\tdefer eb.mu.RUnlock()\n\n\tfor ch := range eb.subscribers {\n\t\tselect {\n\t\tcase ch <- e:\n\t\tdefault:\n\t\t\t// Buffer full, drop the event for this slow consumer.\n\t\t}\n\t}\n", "\teb.mu.RLock()\n\tfor ch := range eb.subscribers {\n\t\tselect {\n\t\tcase ch <- e:\n\t\tdefault:\n\t\t\t// Buffer full, drop the event for this slow consumer.\n\t\t}\n\t}\n\teb.mu.RUnlock()\n", "silent", ""},
+	)
+	addMutants("C06",
+		mutant{"benign:contains-clause-cut-out-by-index", "pkg/engine/search_utils.go", "\tbooleanFilter = strings.Replace(filter, matches[0], \"\", 1)\n", "\tif at := strings.Index(filter, matches[0]); at >= 0 {\n\t\tbooleanFilter = filter[:at] + filter[at+len(matches[0]):]\n\t}\n", "silent", ""},
+	)
+	addMutants("C08",
+		mutant{"benign:nil-value-removes-the-key-and-its-index-entries", "pkg/core/core.go", "§1/2§\tfor key, value := range metadata {\n\t\t// Update direct lookup map (O(1))\n", "\tfor key, value := range metadata {\n\t\tif value == nil {\n\t\t\tif oldValue, had := s.metadataMap[indexName][nodeID][key]; had {\n\t\t\t\tdelete(s.metadataMap[indexName][nodeID], key)\n\t\t\t\ts.removeOldIndexEntries(indexName, nodeID, key, oldValue, analyzer)\n\t\t\t}\n\t\t\tcontinue\n\t\t}\n\t\t// Update direct lookup map (O(1))\n", "silent", ""},
+	)
+	addMutants("C10",
+		mutant{"benign:reverse-entry-looked-up-with-indexfunc", "pkg/core/graph.go", "\tfoundIn := false\n\tfor i := range inList {\n\t\tif inList[i].SourceID == sourceID && inList[i].DeletedAt == 0 {\n\t\t\tfoundIn = true\n\t\t\tbreak\n\t\t}\n\t}\n", "\tfoundIn := slices.IndexFunc(inList, func(r ReverseEdge) bool { return r.SourceID == sourceID && r.DeletedAt == 0 }) >= 0\n", "silent", ""},
+	)
+	addMutants("C10",
+		mutant{"reverse-entry-looked-up-by-peer-only-with-indexfunc", "pkg/core/graph.go", "\tfoundIn := false\n\tfor i := range inList {\n\t\tif inList[i].SourceID == sourceID && inList[i].DeletedAt == 0 {\n\t\t\tfoundIn = true\n\t\t\tbreak\n\t\t}\n\t}\n", "\tfoundIn := slices.IndexFunc(inList, func(r ReverseEdge) bool { return r.SourceID == sourceID }) >= 0\n", "SIB-views", "AddEdge:active-lookup:forward=reverse"},
+	)
+	moreEdits["reverse-entry-looked-up-by-peer-only-with-indexfunc"] = []edit{{"pkg/core/graph.go", "import (\n", "import (\n\t\"slices\"\n"}}
+	moreEdits["benign:reverse-entry-looked-up-with-indexfunc"] = []edit{{"pkg/core/graph.go", "import (\n", "import (\n\t\"slices\"\n"}}
+	addMutants("C15",
+		mutant{"benign:layer-map-copied-with-its-keys", "pkg/core/hnsw/hnsw_index.go", "\tdefer h.metaMu.Unlock()\n\th.memoryConfig = cfg\n", "\tdefer h.metaMu.Unlock()\n\tif cfg.Layers != nil {\n\t\towned := make(map[string]LayerConfig, len(cfg.Layers))\n\t\tfor name, lc := range cfg.Layers {\n\t\t\towned[name] = lc\n\t\t}\n\t\tcfg.Layers = owned\n\t}\n\th.memoryConfig = cfg\n", "silent", ""},
+		mutant{"benign:reinforce-logs-pinned-memories", "pkg/engine/ops.go", "\t\tmeta[\"_last_accessed\"] = now\n", "\t\tmeta[\"_last_accessed\"] = now\n\t\tif pinned, _ := meta[\"_pinned\"].(bool); pinned {\n\t\t\tslog.Debug(\"reinforcing a pinned memory\", \"id\", extID)\n\t\t}\n", "silent", ""},
+	)
+	addMutants("C18",
+		mutant{"benign:dropped-chunk-file-removed-by-a-helper-of-the-drop", "pkg/storage/mmap/arena.go", "\tfilePath := chunk.File.Name()\n\tif err := os.Remove(filePath); err != nil {\n", "\tfilePath := chunk.File.Name()\n\tif err := removeChunkFile(filePath); err != nil {\n", "silent", ""},
+	)
+	moreEdits["benign:dropped-chunk-file-removed-by-a-helper-of-the-drop"] = []edit{{"pkg/storage/mmap/arena.go", "\nfunc (va *VectorArena) Close() error {", "\nfunc removeChunkFile(path string) error { return os.Remove(path) }\n\nfunc (va *VectorArena) Close() error {"}}
+	addMutants("C09",
+		mutant{"benign:alpha-read-into-a-local-first", "internal/server/http_handlers.go", "§2/2§\t\t\treq.Alpha,\n", "\t\t\talpha,\n", "silent", ""},
+	)
+	moreEdits["benign:alpha-read-into-a-local-first"] = []edit{{"internal/server/http_handlers.go", "\t\t// --- STANDARD SEARCH ---\n\t\tids, err := s.Engine.VSearch(\n", "\t\t// --- STANDARD SEARCH ---\n\t\talpha := req.Alpha\n\t\tids, err := s.Engine.VSearch(\n"}}
+	addMutants("C17",
+		mutant{"benign:invalidation-pages-through-the-cursor-to-the-end", "pkg/proxy/proxy.go", "\t\tif hnswIdx, ok := idx.(*hnsw.Index); ok {\n\t\t\thnswIdx.IterateRaw(func(id string, _ interface{}) { ids = append(ids, id) })\n\t\t}\n", "\t\tif _, ok := idx.(*hnsw.Index); ok {\n\t\t\tfor cursor := uint32(0); ; {\n\t\t\t\tpage, next, err := p.engine.VGetIDsByCursor(p.cfg.CacheIndex, cursor, 512)\n\t\t\t\tids = append(ids, page...)\n\t\t\t\tif err != nil || next == 0 {\n\t\t\t\t\tbreak\n\t\t\t\t}\n\t\t\t\tcursor = next\n\t\t\t}\n\t\t}\n", "silent", ""},
+	)
+	moreEdits["benign:zero-query-test-with-containsfunc"] = []edit{{"pkg/engine/ops.go", "\t\"path/filepath\"\n\t\"sort\"\n", "\t\"path/filepath\"\n\t\"slices\"\n\t\"sort\"\n"}}
+	addMutants("C07",
+		mutant{"benign:zero-query-test-with-containsfunc", "pkg/engine/ops.go", "\tisVectorQueryEmpty := true\n\tif len(query) > 0 {\n\t\tfor _, v := range query {\n\t\t\tif v != 0 {\n\t\t\t\tisVectorQueryEmpty = false\n\t\t\t\tbreak\n\t\t\t}\n\t\t}\n\t}\n", "\tisVectorQueryEmpty := !slices.ContainsFunc(query, func(v float32) bool { return v != 0 })\n", "silent", ""},
+	)
+}
+
+// Round 6, second batch: behaviour-preserving rewrites of the code the PART-B rules read.
+func init() {
+	addMutants("C01",
+		mutant{"benign:bare-node-completed-by-a-direct-metadata-write", "pkg/engine/recovery.go", "\t\t\t\tif existing, found := hnswIdx.GetInternalID(id); found && len(e.DB.GetMetadataForNode(name, existing)) == 0 {\n\t\t\t\t\tinternalID, err = existing, nil\n\t\t\t\t}\n", "\t\t\t\tif existing, found := hnswIdx.GetInternalID(id); found && len(e.DB.GetMetadataForNode(name, existing)) == 0 {\n\t\t\t\t\tdelete(entry.metadata, \"__deleted\")\n\t\t\t\t\te.DB.AddMetadata(name, existing, entry.metadata)\n\t\t\t\t}\n", "silent", ""},
+	)
+	addMutants("C14",
+		mutant{"benign:snapshot-reads-the-counters-before-the-node-copy", "pkg/core/hnsw/hnsw_index.go", "\th.metaMu.RLock()\n\tnodes := make([]*Node, len(h.getNodes()))\n\tcopy(nodes, h.getNodes())\n", "\th.metaMu.RLock()\n\tcounterAtCut := uint32(h.nodeCounter.Load())\n\tentrypointAtCut := uint32(h.entrypointID.Load())\n\tmaxLevelAtCut := int(h.maxLevel.Load())\n\tnodes := make([]*Node, len(h.getNodes()))\n\tcopy(nodes, h.getNodes())\n", "silent", ""},
+	)
+	moreEdits["benign:snapshot-reads-the-counters-before-the-node-copy"] = []edit{{"pkg/core/hnsw/hnsw_index.go", "\t}\n\tcounterAtCut := uint32(h.nodeCounter.Load())\n\tentrypointAtCut := uint32(h.entrypointID.Load())\n\tmaxLevelAtCut := int(h.maxLevel.Load())\n\th.metaMu.RUnlock()\n", "\t}\n\th.metaMu.RUnlock()\n"}}
+	addMutants("C10",
+		mutant{"benign:applied-before-test-spelt-out", "pkg/core/graph.go", "\tif hasVersionCreatedAt(outList, targetID, timestamp) {\n\t\treturn\n\t}\n", "\tif applied := hasVersionCreatedAt(outList, targetID, timestamp); applied {\n\t\treturn\n\t}\n", "silent", ""},
+	)
+	addMutants("C13",
+		mutant{"benign:closed-test-in-a-helper", "pkg/persistence/lazy_aof.go", "\tselect {\n\tcase <-lw.closedCh:\n\t\treturn fmt.Errorf(\"cannot write to closed LazyAOFWriter\")\n\tdefault:\n\t}\n", "\tif lw.isClosedNow() {\n\t\treturn fmt.Errorf(\"cannot write to closed LazyAOFWriter\")\n\t}\n", "silent", ""},
+		mutant{"benign:delete-under-the-metadata-lock-in-a-closure", "pkg/engine/ops.go", "\tmetaLock := e.getMetadataLockShard(internalID)\n\tmetaLock.Lock()\n\tidx.Delete(id)\n\n\t// Clean up metadata to prevent memory leaks\n\tif internalID != 0 {\n\t\tif err := e.DB.DeleteMetadata(indexName, internalID); err != nil {\n\t\t\tslog.Warn(\"Failed to delete metadata\", \"error\", err, \"id\", id)\n\t\t}\n\t}\n\tmetaLock.Unlock()\n", "\tfunc() {\n\t\tmetaLock := e.getMetadataLockShard(internalID)\n\t\tmetaLock.Lock()\n\t\tdefer metaLock.Unlock()\n\t\tidx.Delete(id)\n\n\t\t// Clean up metadata to prevent memory leaks\n\t\tif internalID != 0 {\n\t\t\tif err := e.DB.DeleteMetadata(indexName, internalID); err != nil {\n\t\t\t\tslog.Warn(\"Failed to delete metadata\", \"error\", err, \"id\", id)\n\t\t\t}\n\t\t}\n\t}()\n", "silent", ""},
+	)
+	moreEdits["benign:closed-test-in-a-helper"] = []edit{{"pkg/persistence/lazy_aof.go", "\nfunc (lw *LazyAOFWriter) Write(data string) error {", "\nfunc (lw *LazyAOFWriter) isClosedNow() bool {\n\tselect {\n\tcase <-lw.closedCh:\n\t\treturn true\n\tdefault:\n\t\treturn false\n\t}\n}\n\nfunc (lw *LazyAOFWriter) Write(data string) error {"}}
+	addMutants("C05",
+		mutant{"benign:create-parameters-checked-by-one-validator", "pkg/engine/ops.go", "\tif err := hnsw.ValidateMetricPrecision(metric, prec); err != nil {\n\t\treturn err\n\t}\n", "\tif err := validateCreate(m, efC, metric, prec); err != nil {\n\t\treturn err\n\t}\n", "silent", ""},
+	)
+	moreEdits["benign:create-parameters-checked-by-one-validator"] = []edit{{"pkg/engine/ops.go", "\n// --- Vector Data Operations ---\n", "\nfunc validateCreate(m, efC int, metric distance.DistanceMetric, prec distance.PrecisionType) error {\n\tif err := hnsw.ValidateParams(m, efC); err != nil {\n\t\treturn err\n\t}\n\treturn hnsw.ValidateMetricPrecision(metric, prec)\n}\n\n// --- Vector Data Operations ---\n"}}
+	addMutants("C04",
+		mutant{"benign:evolve-copies-everything-but-its-marker", "pkg/engine/ops.go", "\t\tif k == \"_is_historical\" {\n\t\t\tcontinue\n\t\t}\n\t\tmergedMeta[k] = v\n", "\t\tif k != \"_is_historical\" {\n\t\t\tmergedMeta[k] = v\n\t\t}\n", "silent", ""},
+	)
+	addMutants("C07",
+		mutant{"benign:m-of-one-refused-as-a-range", "pkg/core/hnsw/hnsw_index.go", "\tif m == 1 {\n\t\treturn fmt.Errorf(\"invalid index parameters: m must be at least 2 (or 0 for the default), got 1\")\n", "\tif m > 0 && m < 2 {\n\t\treturn fmt.Errorf(\"invalid index parameters: m must be at least 2 (or 0 for the default), got 1\")\n", "silent", ""},
+	)
+	addMutants("C15",
+		mutant{"benign:access-count-clamped-with-max", "pkg/engine/search_utils.go", "\tif accessCount < 0 {\n\t\taccessCount = 0\n\t}\n", "\taccessCount = max(accessCount, 0)\n", "silent", ""},
+	)
+	addMutants("C16",
+		mutant{"benign:admin-prefixes-from-a-list", "internal/server/middleware.go", "\t\tif strings.HasPrefix(path, \"/system/\") || strings.HasPrefix(path, \"/auth/\") || strings.HasPrefix(path, \"/debug/\") {\n", "\t\tif slices.ContainsFunc([]string{\"/system/\", \"/auth/\", \"/debug/\"}, func(prefix string) bool { return strings.HasPrefix(path, prefix) }) {\n", "silent", ""},
+	)
+	addMutants("C16",
+		mutant{"admin-prefix-list-without-the-profiler", "internal/server/middleware.go", "\t\tif strings.HasPrefix(path, \"/system/\") || strings.HasPrefix(path, \"/auth/\") || strings.HasPrefix(path, \"/debug/\") {\n", "\t\tif slices.ContainsFunc([]string{\"/system/\", \"/auth/\"}, func(prefix string) bool { return strings.HasPrefix(path, prefix) }) {\n", "WEB-11", "admin-only"},
+	)
+	moreEdits["admin-prefix-list-without-the-profiler"] = []edit{{"internal/server/middleware.go", "import (\n", "import (\n\t\"slices\"\n"}}
+	moreEdits["benign:admin-prefixes-from-a-list"] = []edit{{"internal/server/middleware.go", "import (\n", "import (\n\t\"slices\"\n"}}
+	addMutants("C11",
+		mutant{"benign:path-rounds-bounded-in-the-loop-condition", "pkg/engine/pathfinding.go", "\tfor depth := 0; depth < maxDepth; depth++ {\n", "\tfor depth := 0; depth < maxDepth && (len(fwdQueue) > 0 || len(bwdQueue) > 0); depth++ {\n", "silent", ""},
+	)
+	moreEdits["benign:path-rounds-bounded-in-the-loop-condition"] = []edit{{"pkg/engine/pathfinding.go", "\t\tif len(fwdQueue) == 0 && len(bwdQueue) == 0 {\n\t\t\tbreak\n\t\t}\n", ""}}
+}
+
+// Round 6, third batch of behaviour-preserving rewrites (ordering rules of the PART-B repairs).
+func init() {
+	addMutants("C02",
+		mutant{"benign:drop-flushes-through-an-engine-helper", "pkg/engine/ops.go", "\tif err := e.AOF.Flush(); err != nil {\n\t\treturn fmt.Errorf(\"persistence flush failed: %w\", err)\n\t}\n\n\terr := e.DB.DeleteVectorIndex(name)", "\tif err := e.flushJournal(); err != nil {\n\t\treturn fmt.Errorf(\"persistence flush failed: %w\", err)\n\t}\n\n\terr := e.DB.DeleteVectorIndex(name)", "silent", ""},
+		mutant{"benign:background-goroutine-removes-a-temp-file-it-names-itself", "pkg/engine/ops.go", "\tslog.Info(\"[Engine] Index deleted from DB\", \"index\", name)\n", "\tslog.Info(\"[Engine] Index deleted from DB\", \"index\", name)\n\tgo func() {\n\t\tleft, _ := filepath.Glob(filepath.Join(e.opts.DataDir, \"*.tmp.old\"))\n\t\tfor _, f := range left {\n\t\t\t_ = os.Remove(f)\n\t\t}\n\t}()\n", "silent", ""},
+	)
+	moreEdits["benign:drop-flushes-through-an-engine-helper"] = []edit{{"pkg/engine/ops.go", "\n// --- Vector Data Operations ---\n", "\nfunc (e *Engine) flushJournal() error { return e.AOF.Flush() }\n\n// --- Vector Data Operations ---\n"}}
+	moreEdits["benign:background-goroutine-removes-a-temp-file-it-names-itself"] = []edit{{"pkg/engine/ops.go", "\t\"log/slog\"\n", "\t\"log/slog\"\n\t\"os\"\n"}}
+	addMutants("C14",
+		mutant{"benign:snapshot-mode-ended-through-an-engine-helper", "pkg/engine/recovery.go", "§1/2§\t\t\tif _, err := e.AOF.EndSnapshotModeRequeue(); err != nil {\n", "\t\t\tif _, err := e.leaveSnapshotMode(); err != nil {\n", "silent", ""},
+	)
+	moreEdits["benign:snapshot-mode-ended-through-an-engine-helper"] = []edit{{"pkg/engine/recovery.go", "\nfunc (e *Engine) replayAOF() error {", "\nfunc (e *Engine) leaveSnapshotMode() (int, error) { return e.AOF.EndSnapshotModeRequeue() }\n\nfunc (e *Engine) replayAOF() error {"}}
+}
